@@ -117,8 +117,16 @@ pub fn stable_oracle(target: &str, raw: &[u8]) -> Result<(), String> {
                 Err(format!("expected {want:?}, got {}", t.render().replace('\n', " ")))
             }
         }
+        "fuzz_build" => build_logic::build_check(raw),
         _ => Err("unknown fuzz target".into()),
     }
+}
+
+/// The decoder and oracle of the `fuzz_build` target (one source file for the
+/// fuzz target and for this replay path).
+#[allow(dead_code)]
+mod build_logic {
+    include!("../../../../fuzz/fuzz_targets/build_logic.rs");
 }
 
 /// Encoder-generated seed inputs (also used as libFuzzer's starting corpus).
@@ -160,6 +168,18 @@ pub fn seeds(target: &str) -> Vec<Vec<u8>> {
             raw.extend(mb2_model::encode::hdr(4, &all, 0));
             v.push(raw);
         }
+        "fuzz_build" => {
+            for sel in 0..7u8 {
+                for n in [0usize, 5, 24] {
+                    let mut raw = vec![sel | 0x30, 40, 90, 160, 220];
+                    raw.extend((0..n).map(|i| b'a' + (i % 26) as u8));
+                    v.push(raw);
+                }
+            }
+            let mut raw = vec![1u8, 2, 8, 0, 0];
+            raw.extend(mb2_model::realistic::blob(0, 7, 12));
+            v.push(raw);
+        }
         _ => {
             let h = mb2_model::encode::hdr(0, &[mb2_model::encode::hdr_end_tag()], 0);
             v.push(h.clone());
@@ -180,6 +200,8 @@ pub struct FuzzSub {
     pub name: &'static str,
     /// libFuzzer runs in the thorough tier (total over all processes)
     pub runs: u64,
+    /// libFuzzer runs in the quick tier (total; one process per worker)
+    pub quick_runs: u64,
     pub max_len: u32,
 }
 
@@ -206,7 +228,7 @@ impl Sub for FuzzSub {
     fn run(&self, ctx: &Ctx) -> SubReport {
         let mut rep = SubReport::new(
             self.name,
-            "every tier: encoder-generated seed inputs and the saved inputs under /verif/replays/fuzz/<target>/ decoded by the shared decoder (selector byte + region bytes; total size / length / checksum / end tag fixed up by selector bits) and checked by the stable guard-page oracle (no crash, extents inside their tag, transcript == total reference model). Thorough tier: coverage-guided libFuzzer campaign of the same target built with AddressSanitizer (64 poisoned bytes around the region; while a typed tag is used everything outside that tag is poisoned), bounded by -runs, seeded by VERIF_SEED, starting from the seeds. Non-trivial = every distinct input; distinct by input hash",
+            "every tier: encoder-generated seed inputs and the saved inputs under /verif/replays/fuzz/<target>/ decoded by the shared decoder (selector byte + region bytes; total size / length / checksum / end tag fixed up by selector bits) and checked by the stable guard-page oracle (no crash, extents inside their tag, transcript == total reference model). Coverage-guided libFuzzer campaign (a short one in the quick tier where the sub-check says so, the long one in the thorough tier) of the same target built with AddressSanitizer (64 poisoned bytes around the region; while a typed tag is used everything outside that tag is poisoned), bounded by -runs, seeded by VERIF_SEED, starting from the seeds. Non-trivial = every distinct input; distinct by input hash",
         );
         // replay tier
         let mut inputs = seeds(self.target);
@@ -238,12 +260,13 @@ impl Sub for FuzzSub {
             }
         }
         // campaign
-        if ctx.tier != Tier::Thorough || self.runs == 0 {
+        let tier_runs = if ctx.tier == Tier::Thorough { self.runs } else { self.quick_runs };
+        if tier_runs == 0 {
             return rep;
         }
-        let procs = 2u64; // per worker; all workers take part
+        let procs = if ctx.tier == Tier::Thorough { 2u64 } else { 1 }; // per worker; all workers take part
         // VERIF_FUZZ_RUNS overrides the campaign size (used by the sensitivity sweeps)
-        let total = std::env::var("VERIF_FUZZ_RUNS").ok().and_then(|s| s.parse::<u64>().ok()).unwrap_or(self.runs);
+        let total = std::env::var("VERIF_FUZZ_RUNS").ok().and_then(|s| s.parse::<u64>().ok()).unwrap_or(tier_runs);
         let per = (total / (procs * ctx.workers as u64)).max(1);
         let work = verif_dir().join("fuzz").join("work").join(format!("{}-w{}", self.target, ctx.worker));
         let _ = std::fs::remove_dir_all(&work);
